@@ -12,6 +12,7 @@ use rusty_pool::ThreadPool;
 use std::sync::{Arc, Mutex};
 #[cfg(rs_store_verif)]
 use std::sync::Arc;
+use std::sync::atomic::{AtomicBool, Ordering};
 #[cfg(rs_store_verif)]
 use verif_rt::sync::Mutex;
 #[cfg(not(rs_store_verif))]
@@ -51,6 +52,8 @@ where
     state: Mutex<State>,
     pub(crate) reducers: Mutex<Vec<Box<dyn Reducer<State, Action> + Send + Sync>>>,
     pub(crate) subscribers: Arc<Mutex<Vec<Arc<dyn Subscriber<State, Action> + Send + Sync>>>>,
+    /// set under the `subscribers` lock once the store has shut down and released its subscribers
+    subscribers_released: AtomicBool,
     pub(crate) dispatch_tx: Mutex<Option<SenderChannel<Action>>>,
     middlewares: Mutex<Vec<Arc<dyn Middleware<State, Action> + Send + Sync>>>,
     pub(crate) metrics: Arc<CountMetrics>,
@@ -134,6 +137,7 @@ where
             state: Mutex::new(state),
             reducers: Mutex::new(reducers),
             subscribers: Arc::new(Mutex::new(Vec::default())),
+            subscribers_released: AtomicBool::new(false),
             middlewares: Mutex::new(middlewares),
             dispatch_tx: Mutex::new(Some(tx)),
             metrics,
@@ -235,7 +239,17 @@ where
         subscriber: Arc<dyn Subscriber<State, Action> + Send + Sync>,
     ) -> Box<dyn Subscription> {
         // append a subscriber
-        self.subscribers.lock().unwrap().push(subscriber.clone());
+        {
+            let mut subscribers = self.subscribers.lock().unwrap();
+            if self.subscribers_released.load(Ordering::SeqCst) {
+                // the store has already shut down: nobody would ever notify or release this
+                // subscriber (an iterator would wait forever), so release it right away
+                drop(subscribers);
+                subscriber.on_unsubscribe();
+            } else {
+                subscribers.push(subscriber.clone());
+            }
+        }
 
         // disposer for the subscriber
         let subscribers = self.subscribers.clone();
@@ -280,6 +294,7 @@ where
                     subscriber.on_unsubscribe();
                 }
                 subscribers.clear();
+                self.subscribers_released.store(true, Ordering::SeqCst);
             }
             Err(mut e) => {
                 #[cfg(dev)]
@@ -288,6 +303,7 @@ where
                     subscriber.on_unsubscribe();
                 }
                 e.get_mut().clear();
+                self.subscribers_released.store(true, Ordering::SeqCst);
             }
         }
     }
